@@ -26,9 +26,14 @@ def subst_cases(tier, for_generation=False):
         for w in M.witnesses(t)[:3]:
             vals.append(w)
             vals += partials(w)[:6]
+        if for_generation:
+            # C01 speaks of every schema produced by substitution, placeholders included
+            from ..subst import with_placeholders
+            for w in M.witnesses(t)[:2]:
+                vals += with_placeholders(w)[:25]
         seen = set()
         for v in vals:
-            if not is_plain(v) or repr(v) in seen:
+            if (not for_generation and not is_plain(v)) or repr(v) in seen:
                 continue
             seen.add(repr(v))
             if try_subst(s, v)[0] == "ok":
